@@ -155,7 +155,7 @@ PROFILES.update({
     "count": {"singleton": True, "max_age": 0.3, "mage_vars": [0, 1, 2], "cmds": ["incr", "decr", "set_np", "set_multi", "set_multi", "restart", "reload", "kill"], "steps": 30},
     "stop": {"cmds": ["stop", "stop", "rm", "kill", "restart", "start", "incr", "decr", "set_np", "set_opt", "set_opt", "status"], "stubborn": 0.5,
              "kcall_deaths": 0.6, "hooks": ["after_spawn", "before_stop", "after_stop"], "norespawn": True,
-             "stop_children": True, "fork": 0.35},
+             "stop_children": True, "fork": 0.35, "patterns": 0.35, "watchers": 3},
     "term": {"max_age": 0.3, "killover": 0.6, "Gs": [0.0, 0.2, 0.3, 0.5, 0.8, 0.05, 0.25, 0.45, 0.95], "stop_children": True, "stop_signal": True, "fork": 0.15, "stubborn": 0.5,
              "cmds": ["stop", "kill", "decr", "restart", "reload", "signal"], "instant": 0.2},
     "acct": {"watchers": 3, "badnb": 0.05, "hooks": ["before_spawn", "after_spawn", "before_start", "after_start", "before_reap", "after_reap"], "faults": 0.3,
@@ -650,6 +650,21 @@ def stop_profile(seed):
     if seed % 3 != 1:
         return scenario.gen_scenario(seed, _STOP_BASE)
     rng = random.Random(seed)
+    if rng.random() < 0.5:
+        # a watcher stopped on request is left alone by a start / restart whose pattern does not match it
+        ws = [{"name": n, "np": rng.choice([1, 2]), "G": 0.1, "W": 0.0, "priority": rng.choice([0, 1, 2])} for n in ("w1", "w2", "w3")]
+        out = rng.choice(["w1", "w3"])
+        pat = "w[23]" if out == "w1" else "w[12]"
+        s = [{"op": "boot"}, {"op": "advance", "dt": 1.0}, {"op": "tick", "n": rng.randint(0, 4)},
+             {"op": "req", "cmd": "stop", "props": {"name": out, "waiting": True}}, {"op": "advance", "dt": 0.5},
+             {"op": "tick", "n": rng.randint(0, 4)}]
+        for _ in range(rng.randint(1, 2)):
+            s.append({"op": "req", "cmd": rng.choice(["restart", "restart", "restart", "start"]),
+                      "props": {"name": pat, "waiting": rng.random() < 0.6}})
+            s.append({"op": "tick", "n": rng.randint(5, 12)})
+        s.append({"op": "end", "xprobe": True, "passes": 2})
+        return {"seed": seed, "watchers": ws, "check_delay": rng.choice([1.0, 2.0]), "warmup_delay": 0.0,
+                "stubborn": [], "obeys": [True], "instant_death": False, "script": s}
     ws = [{"name": "w1", "np": rng.choice([0, 1, 1]), "G": 0.1, "W": 0.0},
           {"name": "w2", "np": rng.choice([1, 2]), "G": rng.choice([0.1, 0.3]), "W": 0.0}]
     if rng.random() < 0.4:
